@@ -150,9 +150,12 @@ def apply(st, op, checks=('C16', 'C17')):
             if cur is None or obj <= cur['obj'] or (math.isnan(cur['obj']) and not math.isnan(obj)):
                 st.saved = dict(x=xcopy, r=rcopy, obj=obj, ns=ns, ev=ev, jac=jac0, jev=jev0)
         elif kind == 'interpolate':
-            ok = M.interpolate_mini_models_svd(make_full_rank=bool(op.get('make_full_rank')) and M.npt() < M.n() + 1)[0]
-            if 'C16' in checks and ok and not op.get('make_full_rank'):
-                out += check_fit(st, site)
+            full_rank = bool(op.get('make_full_rank')) and M.npt() < M.n() + 1
+            ok = M.interpolate_mini_models_svd(make_full_rank=full_rank)[0]
+            if 'C16' in checks and ok:
+                # the statement makes no exception for the optional full-rank completion of the growing phase: its own site name,
+                # so that what fails there (KF-39) cannot hide a failure of the plain fit
+                out += check_fit(st, 'interpolate_full_rank' if full_rank else site)
         elif kind == 'factorise':
             M.factorise_geom_system()
         elif kind == 'final':
